@@ -2,6 +2,9 @@
 #include <occa/core/device.hpp>
 #include <occa/internal/core/device.hpp>
 #include <occa/internal/core/stream.hpp>
+#ifdef LIBOCCA_OCCA_VERIF
+#include <occa/internal/verif.hpp>
+#endif
 
 namespace occa {
   stream::stream() :
@@ -41,6 +44,9 @@ namespace occa {
       return;
     }
     modeStream->removeStreamRef(this);
+#ifdef LIBOCCA_OCCA_VERIF
+    verif::yield(verif::ptAfterRemoveStreamRef);
+#endif
     if (modeStream->modeStream_t::needsFree()) {
       free();
     }
